@@ -290,6 +290,14 @@ func (p *Parser) parseBetweenExpression(left Expression) Expression {
 	}
 
 	p.nextToken()
+
+	if p.curToken.Type != IDENT {
+		msg := fmt.Sprintf("expected an operand after BETWEEN, got %s instead", p.curToken.Type)
+		p.errors = append(p.errors, msg)
+
+		return nil
+	}
+
 	expression.Range[0] = p.parseIdentifier()
 
 	if !p.expectPeek(AND) {
@@ -297,6 +305,14 @@ func (p *Parser) parseBetweenExpression(left Expression) Expression {
 	}
 
 	p.nextToken()
+
+	if p.curToken.Type != IDENT {
+		msg := fmt.Sprintf("expected an operand after AND, got %s instead", p.curToken.Type)
+		p.errors = append(p.errors, msg)
+
+		return nil
+	}
+
 	expression.Range[1] = p.parseIdentifier()
 
 	return expression
